@@ -102,6 +102,29 @@ func level2(tier string, shard, nsh int, res *ev.Result) {
 			}
 		}
 	}
+	// (c) many small pieces: every catalogue frame up to 40 bytes byte by byte, the longest frames in 13- and 7-byte pieces
+	// (a reassembly that only copes with "a request arrives in a few reads" shows here)
+	for _, f := range cat {
+		s := mkStream([]serverx.Frame{f})
+		L := len(s.bytes)
+		var sizes []int
+		if L <= 40 {
+			sizes = []int{1, 2}
+		} else if L > 200 {
+			sizes = []int{13, 7}
+		} else {
+			continue
+		}
+		for _, sz := range sizes {
+			var cuts []int
+			for c := sz; c < L; c += sz {
+				cuts = append(cuts, c)
+			}
+			for _, mode := range []string{"settle", "racing"} {
+				jobs = append(jobs, job{scenarioFor(s, []string{f.Name}, cuts, mode), 1})
+			}
+		}
+	}
 	var execs, steps, newSteps int64
 	outcomes := map[string]struct{}{}
 	for i, j := range jobs {
